@@ -27,12 +27,13 @@ Events == ndJsonDeserialize(IOEnv.TRACE_FILE)
 VARIABLES i, failed, bind, memo
 tvars == <<vars, i, failed, bind, memo>>
 
-Ops == {"Perturb", "Reseed", "CallNone", "CallInt", "CallGen", "FitObj", "CloneFit"}
+Ops == {"Perturb", "Reseed", "SwitchBackend", "CallNone", "CallInt", "CallGen", "FitObj", "CloneFit"}
+\* SwitchBackend: tensorly.tenalg.set_backend(e.b); Reset declares the implementation selected when the trace starts (e.b)
 \* FitObj: ONE estimator object, constructed at Reset with the integer seed ObjSeed[o], is fitted again;
 \* CloneFit: a new estimator built from o.get_params() is fitted.  Both are calls with that integer seed.
 ObjOps == {"FitObj", "CloneFit"}
 
-HasFields(e) == {"id", "tr", "ev", "e", "s", "g", "o", "out", "res", "glob", "gens"} \subseteq DOMAIN e
+HasFields(e) == {"id", "tr", "ev", "e", "s", "g", "o", "b", "out", "res", "glob", "gens"} \subseteq DOMAIN e
 WellFormed(e) ==
     /\ HasFields(e)
     /\ e.glob \in Nat /\ e.res \in Nat /\ e.s \in Nat
@@ -56,6 +57,7 @@ ArgOf(e) == CASE e.ev = "CallNone" -> ArgNone
 
 OpOK(e) == CASE e.ev = "Perturb"  -> TRUE
              [] e.ev = "Reseed"   -> e.s \in Seeds
+             [] e.ev = "SwitchBackend" -> e.b \in Backends
              [] e.ev = "CallNone" -> e.e \in Entries
              [] e.ev = "CallInt"  -> e.e \in Seedable /\ e.s \in Seeds
              [] e.ev = "CallGen"  -> e.e \in Seedable /\ e.g \in Gens
@@ -102,6 +104,8 @@ Verdict(e) ==
         ELSE IF ~GensSame(e) THEN "PerturbTouchedGenerator"
         ELSE IF ~Agrees(GK(StepPerturb(S).global), e.glob) THEN "GlobalStreamNotReproducible"
         ELSE "ok"
+    ELSE IF e.ev = "SwitchBackend" THEN
+        IF ~GlobSame(e) \/ ~GensSame(e) THEN "SwitchTouchedStreams" ELSE "ok"
     ELSE IF e.ev = "Reseed" THEN
         IF ~GensSame(e) THEN "ReseedTouchedGenerator"
         ELSE IF ~Agrees(GK(Fresh(e.s)), e.glob) THEN "ReseedNotReproducible"
@@ -113,7 +117,9 @@ Drift(s) == [s EXCEPT !.global = Adv(@, <<"drift", ToString(i)>>)]
 Tolerant(e) == e.ev = "CallGen" \/ (e.ev = "CallNone" /\ ~Random[e.e])
 
 Accept(e) ==
-    IF e.ev \in {"Perturb", "Reseed"} THEN
+    IF e.ev = "SwitchBackend" THEN
+        /\ S' = StepSwitch(S, e.b) /\ nops' = nops + 1 /\ UNCHANGED <<calls, glog, bind, memo>>
+    ELSE IF e.ev \in {"Perturb", "Reseed"} THEN
         /\ IF e.ev = "Perturb" THEN Perturb ELSE Reseed(e.s)          \* the design's own actions
         /\ bind' = bind \cup {<<GK(S'.global), e.glob>>}
         /\ memo' = memo
@@ -135,6 +141,7 @@ ResetVerdict(e) ==
     ELSE IF \E g \in Gens : e.genseed[g] # GenSeed[g] THEN "Malformed"
     ELSE IF ~("objseed" \in DOMAIN e /\ DOMAIN e.objseed = Objs) THEN "Malformed"
     ELSE IF \E o \in Objs : e.objseed[o] # ObjSeed[o] THEN "Malformed"
+    ELSE IF ~(e.b \in Backends) THEN "Malformed"
     ELSE IF \E g, h \in Gens : GenSeed[g] = GenSeed[h] /\ e.gens[g] # e.gens[h] THEN "TwinInitialStatesDiffer"
     ELSE "ok"
 
@@ -148,7 +155,7 @@ TraceNext ==
     /\ LET e == Events[i] IN
          IF "ev" \in DOMAIN e /\ e.ev = "Reset" THEN
              LET v == ResetVerdict(e) IN
-             /\ S' = InitS /\ calls' = {} /\ glog' = [g \in Gens |-> <<>>] /\ nops' = 0
+             /\ S' = (IF v = "ok" THEN StepSwitch(InitS, e.b) ELSE InitS) /\ calls' = {} /\ glog' = [g \in Gens |-> <<>>] /\ nops' = 0
              /\ memo' = {}
              /\ IF v = "ok"
                   THEN /\ bind' = {<<GK(InitS.global), e.glob>>} \cup {<<NK(InitS.gens[g]), e.gens[g]>> : g \in Gens}
